@@ -163,6 +163,13 @@ func solve(script string, timeoutS int, wantModel bool) solveResult {
 	if r.verdict != "unknown" {
 		return r
 	}
+	return raceSolvers(script, timeoutS, r)
+}
+
+// raceSolvers runs every solver on the script and takes the first verdict.
+func raceSolvers(script string, timeoutS int, r solveResult) solveResult {
+	ctx, cancel := context.WithCancel(context.Background())
+	defer cancel()
 	ch := make(chan solveResult, len(solvers))
 	for i, s := range solvers {
 		go func(i int, s solverSpec) {
@@ -224,7 +231,12 @@ func (v *Verifier) solveAll(x *Exec, obls []*Obligation, timeoutS int, stats *So
 				// vacuity probes only need "not refuted": one solver, short budget
 				r = runSolver(context.Background(), solvers[0], o.Script, 2)
 			} else {
-				r = solve(o.Script, timeoutS, true)
+				// first pass: the fast solver alone, briefly (most obligations end here)
+				q := 3
+				if timeoutS < q {
+					q = timeoutS
+				}
+				r = runSolver(context.Background(), solvers[0], o.Script, q)
 			}
 			o.Solver, o.Time, o.Output = r.solver, r.time, r.output
 			if strings.Contains(r.output, "(error ") && r.verdict == "unknown" && !strings.Contains(firstLine(r.output), "model is not available") && !(r.solver == "cvc5" && strings.Contains(r.output, "expected a value")) {
@@ -260,6 +272,42 @@ func (v *Verifier) solveAll(x *Exec, obls []*Obligation, timeoutS int, stats *So
 		}(o)
 	}
 	wg.Wait()
+	// second pass: what the fast pass left open is raced on all solvers, five at a
+	// time (three processes each), so that the machine is not oversubscribed
+	{
+		sem1 := make(chan struct{}, 5)
+		var wg1 sync.WaitGroup
+		for _, o := range obls {
+			if o.Status != "unknown" || o.ExpectSat {
+				continue
+			}
+			if c, ok := cache[o.Script]; ok && c != o {
+				continue
+			}
+			wg1.Add(1)
+			sem1 <- struct{}{}
+			go func(o *Obligation) {
+				defer wg1.Done()
+				defer func() { <-sem1 }()
+				r := raceSolvers(o.Script, timeoutS, solveResult{solver: o.Solver, time: o.Time, output: o.Output, verdict: "unknown"})
+				o.Solver, o.Time, o.Output = r.solver, r.time, r.output
+				switch r.verdict {
+				case "unsat":
+					o.Status = "discharged"
+				case "sat":
+					o.Status = "failed"
+					o.Model = r.output
+				}
+				if stats != nil {
+					stats.mu.Lock()
+					stats.bySolver[r.solver] += r.time
+					stats.nBySolver[r.solver]++
+					stats.mu.Unlock()
+				}
+			}(o)
+		}
+		wg1.Wait()
+	}
 	// second chance: obligations left undecided are retried with a longer budget,
 	// a few at a time, so that a loaded machine does not turn into a false alarm
 	var retry []*Obligation
